@@ -30,6 +30,13 @@ PROPS = {
                  "three real stand-alone partitions fed byte-identical entries, one restoring a snapshot at every cut (into a fresh or a used replica)"],
         assumptions=[GO_RUNTIME, "graph equality between replicas is not claimed (legitimately non-deterministic); contents, counters and outcomes are"],
     ),
+    "C10": dict(
+        module="Anndb.Props.C10",
+        engines=[dict(name="routing")],
+        trusted=["goextract's expression translator for utils.UuidMod (tied to the model by `rfl`) and its call-site facts",
+                 "encoding/binary.LittleEndian.Uint64 reads 8 bytes little-endian (model: Routing.le64, compared on every differential case)"],
+        assumptions=[GO_RUNTIME, "partition count 0 is excluded (division by zero; validation is C12's subject)"],
+    ),
     "C16": dict(
         module="Anndb.Props.C16",
         engines=[dict(name="placement")],
